@@ -541,11 +541,20 @@ def job_sweep(doc):
     if len(positions) > cap:
         rng = stream(doc["seed"], "sweep")
         positions = sorted(rng.sample(positions, cap), key=lambda f: json.dumps(f, sort_keys=True))
+    plans = [[f] for f in positions]
+    if sw.get("pairs") and 2 <= len(positions) <= int(sw.get("pairs_max_positions", 16)):
+        # small workloads: every PAIR of fault positions as well (two expiries / an expiry and an
+        # unknown / ... in one call)
+        import itertools
+
+        for f1, f2 in itertools.combinations(positions, 2):
+            if (f1["op"], f1.get("worker"), f1["site"], f1["k"]) != (f2["op"], f2.get("worker"), f2["site"], f2["k"]):
+                plans.append([f1, f2])
     results = []
-    for f in positions:
+    for fl in plans:
         d = {k: v for k, v in doc.items() if k not in ("sweep", "fault_plan")}
-        d["faults"] = [f]
-        d["class"] = "sweep"
+        d["faults"] = list(fl)
+        d["class"] = "sweep" if len(fl) == 1 else "sweep2"
         r, w = os.pipe()
         pid = os.fork()
         if pid == 0:
@@ -580,7 +589,7 @@ def job_sweep(doc):
             slim = {"harness_error": "sweep child died"}
         slim["doc"] = d
         results.append(slim)
-    return {"sweep_results": results, "positions": len(positions), "counts": _counts_json(counts)}
+    return {"sweep_results": results, "positions": len(plans), "counts": _counts_json(counts)}
 
 
 def job_orders(doc):
@@ -956,7 +965,7 @@ SPECS = {
             "scenario = C13-style workload whose calls carry total/preprocessing/per-query budgets, run under the virtual clock with 0-3 faults placed INSIDE the "
             "range of observation points measured by a budget-free twin run of the same operations: slow solver call (site, k, duration), clock jump at the k-th "
             "clock read, solver 'unknown' (flavours a/b/c) where a z3 limit is active, worker crash at its k-th solver call, worker exit stall; classes nofault, "
-            "natural (service times scaled until budgets expire by themselves), seq, par, z3, sweep (every single-fault position of one budgeted call). "
+            "natural (service times scaled until budgets expire by themselves), seq, par, z3, poison (expiry inside a correction-set enumeration + recovery call), sweep (every single-fault position of one budgeted call; for calls with <= 16 positions every PAIR of positions as well = sweep2). "
             "Oracle: each row is flagged-and-False or equals the twin's row; no exception escapes; later calls unaffected. Distinct = distinct canonical JSON "
             "(workload + explicit faults); non-trivial = a budget was set AND a fault fired or an expiry was observed or a row was flagged AND at least one row stayed unflagged."
         ),
@@ -1003,7 +1012,7 @@ def jobs(prop, verif_seed, n, tier):
             if not cand:
                 continue
             doc.pop("fault_plan", None)
-            doc["sweep"] = {"op": cand[0], "max_positions": 120 if tier == "quick" else 400}
+            doc["sweep"] = {"op": cand[0], "max_positions": 120 if tier == "quick" else 400, "pairs": tier == "thorough" or made % 4 == 0}
             yield {"id": "sweep%d" % made, "engine": NAME, "func": "sweep", "doc": doc, "wall_cap": 2400}
             made += 1
     for i in range(n):
